@@ -130,7 +130,7 @@ def use_coq(dim, cat_dtypes, shape, dtype):
 def main():
     R = vf.Report(PID)
     proved = R.proof_step()
-    n = 4000 if R.thorough else 260
+    n = 10000 if R.thorough else 260
     cases, infos = [], []
     for c in CORPUS:
         case, info, retinfo = gen_case(R.rng, corpus=c)
